@@ -203,7 +203,13 @@ def core_proxy(stub=None):
         for idx in np.ndindex(arr.shape):
             out[idx] = one(arr[idx])
         return out.view(SymArray) if arr.ndim else out.item()
-    return NpProxy(random=stub, overrides={"array": array, "nan_to_num": nan_to_num})
+    def asarray(obj, dtype=None, **k):
+        if isinstance(obj, np.ndarray) and obj.dtype == object and dtype in (float, np.float64) and any(is_sym(v) for v in obj.reshape(-1)):
+            return obj  # conversion to double is the identity in the exact-real model
+        if dtype in (float, np.float64) and not isinstance(obj, np.ndarray):
+            return array(obj, dtype=dtype)
+        return np.asarray(obj, dtype=dtype, **k)
+    return NpProxy(random=stub, overrides={"array": array, "asarray": asarray, "nan_to_num": nan_to_num})
 
 
 def point_likelihood(cb: Callbacks, blobs: bool, counter: dict):
